@@ -93,6 +93,12 @@ def run(tier):
     mism = conformance(ck, items, classify=classify)
     # CutHarmless: for accepted inputs the cut-free skeleton gives the same outcome (checked on the spec results' side by
     # conformance of both variants to PegSem, and directly here on the implementation results)
+    from ..pegcheck import trace_validate
+    from ..absgrammar import chars_of, make_cfg, to_ebnf
+    step = 5 if tier == 'quick' else 1
+    tcases = [{'ebnf': to_ebnf(it['g']), 'g': it['g'], 'cfg': make_cfg(chars_of(it['g'], it['texts']), **(it.get('cfg') or {})),
+               'texts': [''.join(t) for t in it['texts'] if len(t) <= 4][:30], 'settings': it.get('settings')} for it in items[ck.seed % step::step]]
+    trace_validate(ck, tcases, label='C05 cut placements')
     ck.cov['rule'] = (f'{len(items)} grammars = 18 skeletons (choice, choice in group, optional, closure, positive closure, nested '
                       'closure, join, positive join, gather, rule body, rule called from choice/closure, choices in closure/optional) '
                       'with a cut inserted at every position of every sequence (and the cut-free skeleton) x all texts over {a,b,c} '
